@@ -1150,6 +1150,12 @@ class Interp:
                     # ZeroDivisionError is an outcome
                     if V.is_int_kind(b) or isinstance(b, bool):
                         self.path.require(V.b_not(V.i_eq(b, 0)), "ZeroDivisionError", "integer division or modulo by zero")
+                if op in ("floordiv", "mod") and (V.is_int_kind(a) or isinstance(a, bool)) and isinstance(b, z3.ExprRef) and z3.is_int(b):
+                    # the defining facts of floor division by a symbolic positive divisor
+                    self.path.lemma_instance(
+                        "div-mod-definition", ["int", "int"],
+                        lambda x, y: z3.Implies(y > 0, z3.And(x == y * V.i_floordiv(x, y) + V.i_mod(x, y), V.i_mod(x, y) >= 0, V.i_mod(x, y) < y)),
+                        (V.zint(a), b))
                 if op == "truediv":
                     # python float division by zero raises (numpy/torch scalars do not)
                     bz = V.f_eq(b, 0.0) if V.is_float_kind(b) else V.i_eq(b, 0)
